@@ -75,7 +75,7 @@ class Env:
         return self.counter
 
     def s3store(self):
-        return CountingS3(self.s3.url, timeout=5, retries=Retry(connect=0, read=0, status=0, backoff_factor=0))
+        return CountingS3(self.s3.url, timeout=60, retries=Retry(connect=0, read=0, status=0, backoff_factor=0))
 
 
 # ------------------------------------------------------------------ generators
